@@ -98,6 +98,7 @@ func runC11(t *simrt.Tape, o Opts) Outcome {
 	cfg := schedCfg(t, o, concurrent)
 	var st Stats
 	st.Oracle = map[string]int{}
+	st.Faults = map[string]int{}
 	var viols []world.Violation
 	violate := func(sig, format string, a ...any) {
 		if len(viols) == 0 {
@@ -253,7 +254,7 @@ func runC11(t *simrt.Tape, o Opts) Outcome {
 										return e
 									}
 								}
-								return leaveCallback(leave)
+								return leaveCallbackCounted(leave, st.Faults)
 							})
 						})
 						if unwound {
@@ -278,7 +279,7 @@ func runC11(t *simrt.Tape, o Opts) Outcome {
 								ts.inside++
 								defer func() { ts.inside-- }()
 								inspect(ts, b, "WithBytesFunc")
-								return append([]byte(nil), b...), leaveCallback(leave)
+								return append([]byte(nil), b...), leaveCallbackCounted(leave, st.Faults)
 							})
 						})
 						if unwound {
@@ -377,10 +378,10 @@ func runC11(t *simrt.Tape, o Opts) Outcome {
 											return nil, nil
 										})
 										_ = e // legitimately an error once a Close has begun
-										return leaveCallback(leave)
+										return leaveCallbackCounted(leave, st.Faults)
 									}
 									inspect(ts, b, "concurrent reader (2nd look)")
-									return leaveCallback(leave)
+									return leaveCallbackCounted(leave, st.Faults)
 								})
 							})
 							_ = err // an error is legitimate once a Close has begun
@@ -794,6 +795,13 @@ func cbLeave(t *simrt.Tape) int {
 }
 
 func leaveCallback(leave int) error {
+	return leaveCallbackCounted(leave, nil)
+}
+
+func leaveCallbackCounted(leave int, faults map[string]int) error {
+	if faults != nil && leave != cbReturn {
+		faults["reader-callback."+map[int]string{cbError: "returns-error", cbPanic: "panics"}[leave]]++
+	}
 	switch leave {
 	case cbError:
 		return errCallback
